@@ -5,9 +5,11 @@
 package xbus
 
 //@ struct pipe
+//@   never_closed: sendQ
 //@   immutable: p s closeQ sendQ
 //@
 //@ struct socket
+//@   invariant sendQLen >= 0
 //@   close_token closeQ when closed
 //@   close_token sizeQ
 //@   lock Mutex level 20
